@@ -324,32 +324,21 @@ def notify(chk, program, rule='NOTIFY'):
         chk.unknown(rule, '_update_state', f"{len(assigns)} assignments to _state (expected 1)", IO, fn.lineno)
         return
     A = assigns[0]
-    # (1) equal-state early return dominates the assignment
-    tests = []
-    for n in g.nodes:
-        if n.kind == 'test' and isinstance(n.ast.test, ast.Compare) and len(n.ast.test.ops) == 1:
-            c = n.ast.test
-            a, b = c.left, c.comparators[0]
-            pair = (is_state_read(a) and isinstance(b, ast.Name) and b.id == newp) or (is_state_read(b) and isinstance(a, ast.Name) and a.id == newp)
-            if pair and isinstance(c.ops[0], (ast.Eq, ast.NotEq, ast.Is, ast.IsNot)):
-                tests.append((n, 'false' if isinstance(c.ops[0], (ast.Eq, ast.Is)) else 'true'))
-    ok1 = False
-    for t, diff_label in tests:
-        # remove the "different" edge: the assignment must become unreachable
-        same_label = 'true' if diff_label == 'false' else 'false'
-        targets_diff = [v for v, l in g.succ[t.id] if l == diff_label]
-        reach = g.reach(g.entry.id, labels_excluded=())
-        # reachability with the diff edge of t removed
-        seen = set(); stack = [g.entry.id]
-        while stack:
-            u = stack.pop()
-            for v, l in g.succ[u]:
-                if u == t.id and l == diff_label:
-                    continue
-                if v not in seen:
-                    seen.add(v); stack.append(v)
-        if A.id not in seen:
-            ok1 = True
+    # (1) the assignment is reached only when the state really changes: forward must-analysis; in the world "current state == new state" a test
+    # `X == new` is true and `X != new` false (X = self._state or a local bound to it); an outcome impossible in that world proves a change
+    from .cfg import must_fact, implied_edges
+    aliases = {n.ast.targets[0].id for n in g.nodes if n.kind == 'stmt' and isinstance(n.ast, ast.Assign) and len(n.ast.targets) == 1 and isinstance(n.ast.targets[0], ast.Name)
+               and is_state_read(n.ast.value)}
+    def is_x(e):
+        return is_state_read(e) or (isinstance(e, ast.Name) and e.id in aliases)
+    def world(e):
+        if isinstance(e, ast.Compare) and len(e.ops) == 1:
+            a_, b_ = e.left, e.comparators[0]
+            if (is_x(a_) and isinstance(b_, ast.Name) and b_.id == newp) or (is_x(b_) and isinstance(a_, ast.Name) and a_.id == newp):
+                if isinstance(e.ops[0], (ast.Eq, ast.Is)): return True
+                if isinstance(e.ops[0], (ast.NotEq, ast.IsNot)): return False
+        return NotImplemented
+    ok1 = must_fact(g, gen_edges=implied_edges(g, world))[A.id]
     chk.check(ok1, rule, '_update_state::no-change-suppressed', file=IO, line=A.line, func='_update_state',
               expected='`if self._state == new_state: return` dominates the assignment (no notification without a change)',
               found='assignment reachable with an unchanged state' if not ok1 else 'dominated')
@@ -1835,7 +1824,14 @@ def send_types(chk, program, rule='SEND-TYPES'):
     def ann_of(method):
         f = enc.defs.get(f"NMEA2000Encoder.{method}")
         return ast.unparse(f.returns) if f is not None and f.returns is not None else None
-    def type_of(e):
+    def type_of(e, fn=None, depth=0):
+        if isinstance(e, ast.Name) and fn is not None and depth < 4:
+            # a local bound once: the type of what it is bound to
+            binds = [n for n in ast.walk(fn) if isinstance(n, ast.Assign) and any(isinstance(t, ast.Name) and t.id == e.id for t in n.targets)]
+            others = [n for n in ast.walk(fn) if isinstance(n, ast.Name) and n.id == e.id and isinstance(n.ctx, ast.Store)]
+            if len(binds) == 1 and len(others) == 1:
+                return type_of(binds[0].value, fn, depth + 1)
+            return None
         if isinstance(e, ast.Call) and isinstance(e.func, ast.Attribute) and isinstance(e.func.value, ast.Attribute) and e.func.value.attr == 'encoder':
             return ann_of(e.func.attr)
         if isinstance(e, ast.Constant):
@@ -1861,7 +1857,7 @@ def send_types(chk, program, rule='SEND-TYPES'):
             chk.check(bool(raises), rule, f"{iq}::returns", file=IO, line=fn.lineno, func=iq, expected='returns packets or raises', found='neither', nontrivial=False)
             continue
         for r in rets:
-            t = type_of(r.value)
+            t = type_of(r.value, fn)
             if t is None:
                 chk.unknown(rule, iq, f"type of `{ast.unparse(r.value)[:60]}` not inferable", IO, r.lineno)
                 continue
